@@ -114,6 +114,13 @@ Theorem C10_cli_defaults : forall c a, a_force a = None -> a_no_postprocess a = 
 Proof. exact cli_defaults. Qed.
 Print Assumptions C10_cli_defaults.
 
+(* Post-processing is handed an explicit list of files: the *.py files the emitters wrote.  In the direct path
+   every one of them is an allowed path (so the containment theorems above cover ruff's in-place rewrites). *)
+Theorem C10_post_targets_allowed : forall c q,
+  valid_pkgs c = true -> In q (post_targets c false) -> allowed c (root c ++ q) = true.
+Proof. exact post_targets_allowed. Qed.
+Print Assumptions C10_post_targets_allowed.
+
 (* The call returns iff no stage failed, the package names are valid and (in the diff path) nothing
    differs; it fails with the injected stage iff that stage is reached. *)
 Theorem C10_result : forall c k s,
